@@ -103,10 +103,90 @@ def de_pool(repo_src):
     return entries
 
 
+def _fname(f):
+    return getattr(f, "__name__", None) or getattr(getattr(f, "py_func", None), "__name__", None) or repr(f)
+
+
+def _runtime_param(v1, v2, sentinels):
+    if isinstance(v1, bool):
+        raise TranslateError(f"runtime extraction: bool parameter {v1!r}")
+    if v1 != v2:                                   # follows a constructor argument: name the attribute that carries it
+        for attr, (a, b) in sentinels.items():
+            if v1 == a and v2 == b:
+                return f'PAttr "{attr}"'
+        raise TranslateError(f"runtime extraction: parameter {v1!r}/{v2!r} varies with the constructor arguments but is none of them")
+    if isinstance(v1, (int,)) or (hasattr(v1, "dtype") and v1.dtype.kind in "iu"):
+        return f"PInt {C.cz(int(v1))}"
+    fr = fractions.Fraction(float(v1)).limit_denominator(10 ** 6)
+    if float(fr) != float(v1):
+        raise TranslateError(f"runtime extraction: float parameter {v1!r} is not a small rational")
+    return f"PQ ({fr.numerator} # {fr.denominator})"
+
+
+def ga_pools_runtime():
+    """the same three tables read from two LIVE GeneticAlgorithm instances built with different sentinel arguments
+    (used when the source no longer has the dict-literal shape the AST reader understands, and as a cross-check)"""
+    import numpy as np
+    from thefittest.optimizers import GeneticAlgorithm
+    sent = {"_tour_size": (11, 17), "_parents_num": (13, 19), "_mutation_rate": (0.123, 0.456)}
+
+    def mk(i):
+        return GeneticAlgorithm(lambda x: np.zeros(len(x)), iters=1, pop_size=20, str_len=4, tour_size=sent["_tour_size"][i],
+                                parents_num=sent["_parents_num"][i], mutation_rate=sent["_mutation_rate"][i])
+    a, b = mk(0), mk(1)
+    res = {}
+    for attr, arity in (("_selection_pool", 2), ("_crossover_pool", 2), ("_mutation_pool", 3)):
+        da, db = getattr(a, attr), getattr(b, attr)
+        if list(da.keys()) != list(db.keys()):
+            raise TranslateError(f"runtime extraction: {attr} has different names in two instances")
+        entries = []
+        for k in da:
+            va, vb = da[k], db[k]
+            if not (isinstance(va, tuple) and len(va) == arity):
+                raise TranslateError(f"runtime extraction: entry {k!r} of {attr} is not a tuple of {arity}")
+            const = "false"
+            if arity == 3:
+                if not isinstance(va[2], bool):
+                    raise TranslateError(f"runtime extraction: constant-rate flag of {k!r} is not a bool")
+                const = "true" if va[2] else "false"
+            entries.append((str(k), _fname(va[0]), _runtime_param(va[1], vb[1], sent), const))
+        res[attr] = entries
+    return res
+
+
+def de_pool_runtime():
+    import numpy as np
+    from thefittest.optimizers import DifferentialEvolution
+    o = DifferentialEvolution(lambda x: np.zeros(len(x)), iters=1, pop_size=8, left_border=-1.0, right_border=1.0, num_variables=2)
+    return [(str(k), _fname(v)) for k, v in o._mutation_pool.items()]
+
+
+def _canon_entry(e):
+    k, f, p, c = e
+    if p.startswith("PInt "):                      # PInt 1 and PQ (1 # 1) are the same parameter
+        z = p[5:].strip("()%Z ")
+        p = f"PQ ({z} # 1)"
+    return (k, f, p.replace(" ", ""), c)
+
+
+def tables_agree(x, y):
+    return all(sorted(map(_canon_entry, x[a])) == sorted(map(_canon_entry, y[a])) for a in ("_selection_pool", "_crossover_pool", "_mutation_pool"))
+
+
+SOURCE = {"ga": "ast", "de": "ast"}     # which reader produced the tables of this run (reported in the evidence)
+
+
 def emit(repo_src=C.SRC):
     gen = os.path.join(C.COQ, "gen")
     os.makedirs(gen, exist_ok=True)
-    pools = ga_pools(repo_src)
+    try:
+        pools = ga_pools(repo_src)
+        SOURCE["ga"] = "ast"
+    except TranslateError as e:
+        if os.path.realpath(repo_src) != os.path.realpath(C.SRC):
+            raise
+        pools = ga_pools_runtime()                 # a harmless rewrite of the dict literals must not stop the check
+        SOURCE["ga"] = f"runtime (AST reader: {e})"
     lines = ["(* GENERATED by harness/translate_pools.py from optimizers/_geneticalgorithm.py — do not edit *)",
              "From TF Require Import Pools.", "From Coq Require Import String.", "Open Scope string_scope.", ""]
     for attr, nm in (("_selection_pool", "selection_pool"), ("_crossover_pool", "crossover_pool"),
@@ -114,7 +194,14 @@ def emit(repo_src=C.SRC):
         body = ";\n  ".join(f'E "{k}" "{f}" ({p}) {c}' for k, f, p, c in pools[attr])
         lines.append(f"Definition {nm} : list entry := [\n  {body} ].\n")
     _write_if_changed(os.path.join(gen, "GenPools.v"), "\n".join(lines))
-    de = de_pool(repo_src)
+    try:
+        de = de_pool(repo_src)
+        SOURCE["de"] = "ast"
+    except TranslateError as e:
+        if os.path.realpath(repo_src) != os.path.realpath(C.SRC):
+            raise
+        de = de_pool_runtime()
+        SOURCE["de"] = f"runtime (AST reader: {e})"
     body = ";\n  ".join(f'("{k}", "{f}")' for k, f in de)
     txt = ("(* GENERATED by harness/translate_pools.py from optimizers/_differentialevolution.py — do not edit *)\n"
            "From Coq Require Import String List.\nImport ListNotations.\nOpen Scope string_scope.\n\n"
